@@ -14,6 +14,7 @@ import (
 	"strconv"
 	"strings"
 	"sync/atomic"
+	"syscall"
 
 	"github.com/cloudwego/hertz/pkg/app"
 	"github.com/cloudwego/hertz/pkg/protocol"
@@ -606,6 +607,15 @@ func run(c *mc.Ctx) {
 		}
 		from = done + 1
 	}
+	// 2c) a header block far above the read buffer, delivered in one-byte segments, in a child process whose address space
+	// is limited to 4 GiB: the memory held for one message must stay proportional to its size, or a single slow peer ends
+	// the process
+	if died, msg := runBigHeadChild(); died {
+		cs := bigHeadCases()[0]
+		cs.Input = cs.Input[:40] + "..."
+		c.ViolateObserved("process-crash|header-in-one-byte-segments", "the process (address space limited to 4 GiB) died while reading a 48 KiB header block delivered byte by byte: "+msg, cs)
+	}
+	atomic.AddInt64(ex, int64(len(bigHeadCases())))
 	pool <- w
 	// 3) parsers: all token strings up to n
 	for pi := range parsers {
@@ -692,6 +702,54 @@ func init() {
 		fmt.Println("VIOLATIONS-IN-CHILD")
 	}
 	os.Exit(0)
+}
+
+func bigHeadCases() []Case {
+	pad := strings.Repeat("p", 48*1024)
+	return []Case{
+		{Side: "server", Input: "GET /big HTTP/1.1\r\nHost: h\r\nX-Pad: " + pad + "\r\n\r\n", Bytewise: true},
+		{Side: "client", Input: "HTTP/1.1 200 OK\r\nX-Pad: " + pad + "\r\nContent-Length: 0\r\n\r\n", Bytewise: true},
+	}
+}
+
+// child mode: VERIF_C03_BIGHEAD=1 limits the address space and serves the big-header cases.
+func init() {
+	if os.Getenv("VERIF_C03_BIGHEAD") == "" {
+		return
+	}
+	lim := syscall.Rlimit{Cur: 4 << 30, Max: 4 << 30}
+	if err := syscall.Setrlimit(syscall.RLIMIT_AS, &lim); err != nil {
+		fmt.Println("NO-RLIMIT", err)
+		os.Exit(0)
+	}
+	c := mc.NewCtx("C03", "quick")
+	w := &worker{servers: map[string]*srvh.Server{}}
+	for _, cs := range bigHeadCases() {
+		if cs.Side == "server" {
+			w.execServer(c, cs)
+		} else {
+			execClient(c, cs)
+		}
+	}
+	fmt.Println("BIGHEAD-DONE")
+	os.Exit(0)
+}
+
+func runBigHeadChild() (died bool, msg string) {
+	cmd := exec.Command(os.Args[0], "list")
+	cmd.Env = append(os.Environ(), "VERIF_C03_BIGHEAD=1")
+	out, err := cmd.CombinedOutput()
+	if strings.Contains(string(out), "BIGHEAD-DONE") || strings.Contains(string(out), "NO-RLIMIT") {
+		return false, ""
+	}
+	msg = fmt.Sprint(err)
+	for _, ln := range strings.Split(string(out), "\n") {
+		if strings.HasPrefix(ln, "fatal error") || strings.HasPrefix(ln, "panic:") || strings.HasPrefix(ln, "runtime:") {
+			msg += "; " + ln
+			break
+		}
+	}
+	return true, msg
 }
 
 // runGridChild runs the grid from index `from` in a child process; it returns the index reached.
